@@ -115,11 +115,11 @@ int main(int argc, char **argv) {
         opn2_rt_pitchBend(B.dev, 0, 4096); snprintf(w, sizeof w, "%s key %d bend -1 semitone on the second handle (order %d)", t.family ? "OPNA" : "OPN2", key, order); lf = -1; check_pitch(B, t.family, key - 1.0, w, o, lf, false); if(o.bad) return;
         if(i % 97 == 0) o.sample = w; o.units = 4; o.nontrivial = true; };
       fams.push_back(F); }
-    { en::Family F; F.name = "drum_key"; F.count = 2 * 127 * 3; F.chunk = 16; F.budget_s = 60; F.describe = "percussion channel: drum key 1..127 fixes the pitch whatever MIDI key {35,60,100} is played, OPN2/OPNA";
-      F.run = [](uint64_t i, en::CaseOut &o) { Sweep s; s.family = (int)(i % 2); s.range = 2; s.offset = 2; s.chan = 9; int dk = 1 + (int)((i / 2) % 127); static const int KEYS[] = {35, 60, 100}; int key = KEYS[i / 254];
+    { en::Family F; F.name = "drum_key"; F.count = 2 * 255 * 3; F.chunk = 16; F.budget_s = 60; F.describe = "percussion channel: every value 1..255 of the instrument's fixed-key field (1..127: that key; 128..255: key field-128, so 128 is key 0) fixes the pitch whatever MIDI key {35,60,100} is played, OPN2/OPNA";
+      F.run = [](uint64_t i, en::CaseOut &o) { Sweep s; s.family = (int)(i % 2); s.range = 2; s.offset = 2; s.chan = 9; int field = 1 + (int)((i / 2) % 255); int dk = field; static const int KEYS[] = {35, 60, 100}; int key = KEYS[i / 510];
         pl::Instance I; if(!setup(I, s, dk)) { o.fail("C10/harness", "setup failed"); return; } double lastf = -1; char w[120];
         if(opn2_rt_noteOn(I.dev, 9, (OPN2_UInt8)key, 100) != 1) { o.fail("C10/note-rejected", "drum note rejected"); return; }
-        snprintf(w, sizeof w, "%s drum key %d played with MIDI key %d", s.family ? "OPNA" : "OPN2", dk, key); check_pitch(I, s.family, dk, w, o, lastf, false); if(i % 97 == 0) o.sample = w; if(!o.bad) o.nontrivial = true; };
+        snprintf(w, sizeof w, "%s fixed-key field %d played with MIDI key %d", s.family ? "OPNA" : "OPN2", field, key); check_pitch(I, s.family, field >= 128 ? field - 128 : field, w, o, lastf, false); if(i % 97 == 0) o.sample = w; if(!o.bad) o.nontrivial = true; };
       fams.push_back(F); }
     { en::Family F; F.name = "bend_all_keydown_notes"; F.count = 2 * 64 * 2; F.chunk = 8; F.budget_s = 60; F.describe = "3 key-down notes + 1 pedal-held note on a channel (+1 note on another channel): one pitch-bend message must re-write A4/A0 for exactly the key-down notes of that channel, in that call; 64 bend values x 2 families x {no sostenuto, sostenuto pedal (CC66) pressed while the three keys are down: they are still key-down notes}";
       F.run = [](uint64_t i, en::CaseOut &o) { Sweep s; s.family = (int)(i % 2); s.range = 2; s.offset = 2; s.chan = 0; pl::Instance I; if(!setup(I, s, 0)) { o.fail("C10/harness", "setup"); return; }
